@@ -798,6 +798,133 @@ func c04Nats(c *core.Ctx, p c04Params) {
 		<-ret
 	}
 	c.Sample(map[string]interface{}{"scenario": "bursts of 400 requests over an embedded NATS server, default-valued configuration", "rounds": p.N})
+	for k := 0; k < 2; k++ {
+		if !c04NatsLateClosed(c, ne, k) {
+			return
+		}
+	}
+}
+
+// c04NatsLateClosed: a service is served on a NATS connection, shut down and served again on
+// a new connection. The first connection's closed callback is delivered late (nats.go runs a
+// connection's callbacks one after the other, and the application's OnDisconnect callback
+// takes its time): it arrives while the second run is serving. Every request of the second
+// run still gets exactly one response.
+func c04NatsLateClosed(c *core.Ctx, ne *natsenv.Env, k int) bool {
+	hold := make(chan struct{})
+	var holdOnce sync.Once
+	release := func() { holdOnce.Do(func() { close(hold) }) }
+	defer release()
+	svc := res.NewService("svc")
+	svc.SetLogger(&cntLogger{})
+	svc.SetOnDisconnect(func(*res.Service) { <-hold })
+	svc.Handle("m.$id", res.Access(res.AccessGranted), res.GetModel(func(r res.ModelRequest) { r.Model(map[string]string{"id": r.PathParam("id")}) }),
+		res.Call("do", func(r res.CallRequest) { r.OK(r.PathParam("id")) }))
+	serve := func() (chan error, bool) {
+		snc, err := ne.Connect("service")
+		if err != nil {
+			c.Inconclusive("connect: " + err.Error())
+			return nil, false
+		}
+		served := make(chan struct{})
+		svc.SetOnServe(func(*res.Service) { close(served) })
+		ret := make(chan error, 1)
+		go func() { ret <- svc.Serve(snc) }()
+		if !waitCh(served, 10*time.Second) {
+			c.Inconclusive("late-closed scenario: service did not start")
+			return nil, false
+		}
+		snc.Flush()
+		return ret, true
+	}
+	ret1, ok := serve()
+	if !ok {
+		return false
+	}
+	entered := sched.Count("shutdown.enter")
+	if err := svc.Shutdown(); err != nil {
+		c.Inconclusive("late-closed scenario: Shutdown: " + err.Error())
+		return false
+	}
+	select {
+	case <-ret1:
+	case <-time.After(10 * time.Second):
+		c.Inconclusive("late-closed scenario: first Serve did not return")
+		return false
+	}
+	ret2, ok := serve()
+	if !ok {
+		return false
+	}
+	// now the first connection's callbacks go on: its closed callback reaches the service
+	release()
+	for i := 0; i < 2000 && sched.Count("shutdown.enter") < entered+2; i++ {
+		time.Sleep(time.Millisecond)
+	}
+	late := sched.Count("shutdown.enter") >= entered+2
+	var mu sync.Mutex
+	got := map[string]int{}
+	prefix := fmt.Sprintf("_INBOX.c04late%d.", k)
+	sub, err := ne.GW.Subscribe(prefix+"*", func(m *nats.Msg) {
+		if !isPreResponse(m.Data) {
+			mu.Lock()
+			got[m.Subject]++
+			mu.Unlock()
+		}
+	})
+	if err != nil {
+		c.Inconclusive("subscribe: " + err.Error())
+		return false
+	}
+	ne.GW.Flush()
+	const burst = 120
+	for i := 0; i < burst; i++ {
+		subj := []string{"get.svc.m.%d", "call.svc.m.%d.do", "access.svc.m.%d"}[i%3]
+		ne.GW.PublishRequest(fmt.Sprintf(subj, i%50), fmt.Sprintf("%s%d", prefix, i), []byte(`{"cid":"c"}`))
+	}
+	ne.GW.Flush()
+	deadline := time.Now().Add(10 * time.Second)
+	for time.Now().Before(deadline) {
+		mu.Lock()
+		n := len(got)
+		mu.Unlock()
+		if n >= burst {
+			break
+		}
+		time.Sleep(2 * time.Millisecond)
+	}
+	time.Sleep(20 * time.Millisecond)
+	sub.Unsubscribe()
+	mu.Lock()
+	missing, multiple := 0, 0
+	for i := 0; i < burst; i++ {
+		switch n := got[fmt.Sprintf("%s%d", prefix, i)]; {
+		case n == 0:
+			missing++
+		case n > 1:
+			multiple++
+		}
+	}
+	mu.Unlock()
+	c.Eval(burst)
+	c.Obs("nats_requests_after_a_late_closed_callback", burst)
+	desc := map[string]interface{}{"scenario": "served on connection A, Shutdown, served on connection B, A's closed callback delivered during the second run", "closed_callback_seen_during_second_run": late, "burst": burst, "unanswered": missing, "answered_more_than_once": multiple}
+	if missing > 0 {
+		c.Violation("C04/no-response:nats-late-closed-callback", fmt.Sprintf("%d of %d requests to the second run got no response within 10 s after the first connection's closed callback had arrived", missing, burst), desc)
+	}
+	if multiple > 0 {
+		c.Violation("C04/multiple-responses:nats-late-closed-callback", fmt.Sprintf("%d of %d requests got more than one response", multiple, burst), desc)
+	}
+	c.Distinct(fmt.Sprintf("nats-late-closed/%d/%v", k, late))
+	stopped := make(chan struct{})
+	go func() { svc.Shutdown(); <-ret2; close(stopped) }()
+	if !waitCh(stopped, 10*time.Second) {
+		if missing == 0 {
+			c.Violation("C04/no-response:nats-late-closed-callback:shutdown", "the second run did not stop within 10 s", desc)
+		}
+		return false
+	}
+	return true
 }
 
 // c04NoLogger: the service runs without logger (SetLogger(nil)) but with an OnError
